@@ -51,6 +51,7 @@ func TestVerifC12Objects(t *testing.T) {
 		combos = append(combos, c12Combo{tt, verifsim.C12ToRelated, verifsim.C12PlGarbage})
 	}
 	perm := verifutil.Stream(12, 3).Perm(len(combos))
+	c12ForkShapes(c, s)
 	n := c12Scale(36000, 1200000)
 	for i := 0; i < n && !c.stop; i++ {
 		r := verifutil.Stream(12, 4, uint64(i))
@@ -522,6 +523,78 @@ func c12SubChainCase(c *c12Ctx, s *c12Sut, r *verifutil.Rng, i int) {
 		rep.Note("the unmodified ahead chain was refused by ValidateSubChain: %v", err)
 	}
 	rep.Distinct("subchain", label, c12ErrClass(perr), c12ErrClass(err))
+}
+
+// c12ForkShapes: a fixed list of fork answers (every child runs it once) through the fork
+// resolver's consumer: ranges made of the node's OWN old blocks (the size comparison with the
+// own chain runs only for forks that do not pass the head) and of forged heights.
+func c12ForkShapes(c *c12Ctx, s *c12Sut) {
+	rep := c.rep
+	w, v := s.env.W, s.node.R
+	var own []types.BlockBundle
+	for _, b := range w.Blocks {
+		if b.Height() <= s.headH && b.Height()+8 > s.headH {
+			own = append(own, types.BlockBundle{Block: b, Cert: v.Chain.GetCertificate(b.Hash())})
+		}
+	}
+	if len(own) < 6 {
+		rep.Inconcl("fork shapes: the victim's chain is too short")
+		return
+	}
+	forged := func(b *types.Block, h uint64) types.BlockBundle {
+		return types.BlockBundle{Block: &types.Block{Header: &types.Header{EmptyBlockHeader: &types.EmptyBlockHeader{ParentHash: b.Header.ParentHash(), Height: h, Time: b.Header.Time()}}, Body: &types.Body{}}}
+	}
+	cp := func(l []types.BlockBundle) []types.BlockBundle { return append([]types.BlockBundle{}, l...) }
+	var ahead []types.BlockBundle
+	for j, b := range s.env.Ahead {
+		ahead = append(ahead, types.BlockBundle{Block: b, Cert: s.env.AheadCerts[j]})
+	}
+	shapes := []struct {
+		name string
+		l    []types.BlockBundle
+	}{
+		{"own-consecutive", cp(own)},
+		{"own-with-gap", append(cp(own[:2]), own[4:]...)},
+		{"own-single", cp(own[3:4])},
+		{"own-duplicate-height", append(cp(own[:3]), own[2])},
+		{"forged-height-0", []types.BlockBundle{forged(own[0].Block, 0)}},
+		{"forged-height-1", []types.BlockBundle{forged(own[0].Block, 1)}},
+		{"forged-height-1-then-ahead", append([]types.BlockBundle{forged(own[0].Block, 1)}, ahead...)},
+		{"forged-height-2-then-ahead", append([]types.BlockBundle{forged(own[0].Block, 2)}, ahead...)},
+		{"forged-height-max", []types.BlockBundle{forged(own[0].Block, ^uint64(0))}},
+		{"forged-height-0-and-max", []types.BlockBundle{forged(own[0].Block, 0), forged(own[0].Block, ^uint64(0))}},
+		{"own-then-ahead", append(cp(own[len(own)-2:]), ahead...)},
+		{"ahead-with-gap", append(cp(ahead[:1]), ahead[2:]...)},
+		{"ahead", cp(ahead)},
+	}
+	for _, sh := range shapes {
+		if len(sh.l) == 0 {
+			continue
+		}
+		var items []c12RangeItem
+		for _, b := range sh.l {
+			items = append(items, c12RangeItem{Header: b.Block.Header, Cert: b.Cert})
+		}
+		wire := c12RangePayload(0, items)
+		c.desc = fmt.Sprintf("objects fork-shape %s (%d bundles, heights %d..%d, head %d)", sh.name, len(sh.l), sh.l[0].Block.Height(), sh.l[len(sh.l)-1].Block.Height(), s.headH)
+		rep.Progress("%s hex=%s", c.desc, c12Hex(wire, 300))
+		rep.Count("inputs", 1)
+		rep.Count("fork_shape_cases", 1)
+		ch := make(chan types.BlockBundle, len(sh.l))
+		for _, b := range sh.l {
+			ch <- b
+		}
+		close(ch)
+		var perr error
+		if !c.call("ForkResolver.processBlocks", wire, true, func() { perr = s.fr.VerifC12ProcessBlocks(ch, s.pidA) }) {
+			continue
+		}
+		if s.fr.HasLoadedFork() {
+			rep.Count("fork_shape_applicable", 1)
+			s.fr.VerifC12DropFork()
+		}
+		rep.Distinct("fork-shape", sh.name, c12ErrClass(perr))
+	}
 }
 
 // ------------------------------------------------------------------ forged lengths and range overflow
